@@ -5,6 +5,7 @@ import (
 	"fmt"
 	"os"
 	"sync"
+	"sync/atomic"
 	"time"
 
 	"github.com/attestantio/dirk/core"
@@ -63,6 +64,20 @@ type Network struct {
 	commitWait  map[string]*commitGate
 	prepCount   map[string]int
 	Panics      []string
+	// hookMu serialises the hooks: Dirk sends commit messages from parallel goroutines, and hooks
+	// keep counters.  A hook that needs to send a message of its own uses DeliverRaw.
+	hookMu    sync.Mutex
+	hookOwner atomic.Int64 // goroutine inside a hook; messages it sends meanwhile bypass the hooks
+}
+
+func (n *Network) inHook(f func()) {
+	n.hookMu.Lock()
+	n.hookOwner.Store(GoID())
+	defer func() {
+		n.hookOwner.Store(0)
+		n.hookMu.Unlock()
+	}()
+	f()
 }
 
 type commitGate struct {
@@ -214,9 +229,25 @@ func (n *Network) record(m *Msg) {
 
 // Deliver sends a protocol message to the recipient's receiver handler, honouring the hooks.
 func (n *Network) Deliver(m *Msg) (resp proto.Message, err error) {
+	return n.deliver(m, true)
+}
+
+// DeliverRaw delivers a message without calling the hooks (for use from inside a hook).
+func (n *Network) DeliverRaw(m *Msg) (resp proto.Message, err error) {
+	return n.deliver(m, false)
+}
+
+func (n *Network) deliver(m *Msg, hooks bool) (resp proto.Message, err error) {
 	n.record(m)
-	if n.Intercept != nil {
-		if r, e, handled := n.Intercept(m); handled {
+	if hooks && n.hookOwner.Load() == GoID() {
+		hooks = false // sent from inside a hook (for example by the recipient of a duplicated message)
+	}
+	if hooks && n.Intercept != nil {
+		var r proto.Message
+		var e error
+		var handled bool
+		n.inHook(func() { r, e, handled = n.Intercept(m) })
+		if handled {
 			if e != nil {
 				m.Err = e.Error()
 			}
@@ -231,8 +262,10 @@ func (n *Network) Deliver(m *Msg) (resp proto.Message, err error) {
 
 		return nil, fmt.Errorf("no instance with id %d", m.To)
 	}
-	if n.Before != nil {
-		if err := n.Before(m); err != nil {
+	if hooks && n.Before != nil {
+		var err error
+		n.inHook(func() { err = n.Before(m) })
+		if err != nil {
 			m.Err = err.Error()
 
 			return nil, err
@@ -285,8 +318,10 @@ func (n *Network) Deliver(m *Msg) (resp proto.Message, err error) {
 		return nil, err
 	}
 	m.Resp = resp
-	if n.After != nil {
-		if err := n.After(m); err != nil {
+	if hooks && n.After != nil {
+		var err error
+		n.inHook(func() { err = n.After(m) })
+		if err != nil {
 			m.Err = err.Error()
 
 			return nil, err
